@@ -1,8 +1,8 @@
 """C10 - Merkle nodes never report a stale hash (swh/model/merkle.py, from_disk.Directory/Content).
 
 Tie: every generated history (new node / set / replace / delete / bulk update /
-nested path keys / read hash / forced update / entries / to_model / collect /
-reset / out-of-band data write) is run on /repo's classes and on the extracted heap machine
+nested path keys / read hash / swhid / forced update / entries / to_model /
+collect / reset / out-of-band data write) is run on /repo's classes and on the extracted heap machine
 (coq/model/Merkle.v), and every output is compared op by op:
   * generic world: a MerkleNode/MerkleLeaf subclass whose compute_hash is the
     driver's NH (md5 of an injective encoding of data and, in dict order,
@@ -27,7 +27,7 @@ ID = "C10"
 PROPS = "Props/C10.v"
 EXTRACT = "extract/ExC10.v"
 OBLIGATION = "merkle-history"
-THEOREMS = ["C10_inv_init", "C10_inv_step", "C10_reachable", "C10_no_stale", "C10_path_ops_total",
+THEOREMS = ["C10_inv_init", "C10_inv_step", "C10_reachable", "C10_no_stale", "C10_swhid_fresh", "C10_path_ops_total",
             "C10_acyclic_equiv", "C10_acyclic_no_self_reach", "C10_force_restores", "C10_inv_split",
             "C10_write_force_fresh", "C10_write_force_satisfiable", "C10_fresh_unique",
             "C10_delete_keeps_other_parent", "C10_no_stale_refuted_old_remove",
@@ -37,7 +37,11 @@ RULE = ("histories of 5-60 operations over <= 12 nodes (generic MerkleNode/Merkl
         "equal parents, replace in place, delete then re-attach, nested path keys 3 levels deep, forced update "
         "inside a diamond, reads before/after each mutation, generic nodes whose hash is the falsy b'', a child "
         "replaced by a different but structurally equal node, an entry replaced by a leaf with the same bytes and "
-        "another mode); in 60 % of the histories also out-of-band data writes "
+        "another mode); the derived identifier swhid() (op I) is read like hash / entries / to_model / collect, and "
+        "after half of the mutations ONE of these reads is issued first, on the mutated node, an ancestor or a "
+        "root, so that no read heals what another would have shown stale; failing operations (missing names, "
+        "paths through leaves, assignments under a Content, updates of leaves) are issued after collects and must "
+        "change nothing; in 60 % of the histories also out-of-band data writes "
         "(op W: node.data reassigned, the library is not told) followed - not necessarily at once - by "
         "update_hash(force=True) at a dominating node, at a non-dominating node (written node shared under two "
         "roots) or by nothing: the written node and everything above it are excused from freshness until a forced "
@@ -277,6 +281,23 @@ def scenario(rng, world, which):
                 ["N", "c" if world == "disk" else leaf, other],
                 rng.choice([["S", p1, z, 5], ["S", root, H(b"a/b"), 5]]) if world == "disk" else ["S", p1, z, 5],
                 ["H", root], ["M", root], ["L", root]]
+    elif which == 12:   # read orders: a derived value read, a mutation below, then each derived read as the FIRST read
+        rd = lambda: rng.choice(["I", "I", "H", "E", "M", "L"] if world == "disk" else ["H", "L", "I"])   # noqa
+        ops += [["S", p1, x, c], ["S", root, a, p1], ["S", c, z, y]]
+        ops += [[rd(), rng.choice([root, p1, c])] for _ in range(rng.choice([1, 2, 3]))] + [["I", root], ["I", p1]]
+        mut = rng.choice([["D", c, z], ["S", c, a, y], ["S", p1, H(b"c/a" if world == "disk" else b"q"), y],
+                          ["U", c, [[a, y]]], ["D", root, H(b"a/c") if world == "disk" else a]])
+        first = rng.choice([root, p1, c])
+        ops += [mut, [rd(), first], ["I", first], ["I", root], ["H", root], ["I", c], ["I", y]]
+    elif which == 13:   # failed operations between two collects are not a change
+        ops += [["S", p1, x, c], ["S", root, a, p1], ["S", c, z, y], ["H", root], ["L", root]]
+        fails = [["D", p1, H(b"zz")], ["D", root, H(b"zz")], ["D", c, H(b"zz")], ["D", y, z], ["G", p1, H(b"zz")],
+                 ["S", y, a, c], ["U", y, [[a, c]]], ["D", root, H(b"a/zz")], ["D", root, H(b"zz/a")]]
+        if world == "disk":
+            fails += [["S", root, H(b"a/c/b/q"), y], ["S", root, H(b""), y], ["D", root, H(b"a/c/b/q")], ["S", p1, H(b"zz/q"), y],
+                      ["C", root, H(b"a/zz")]]
+        ops += [rng.choice(fails) for _ in range(rng.choice([1, 1, 2, 3]))]
+        ops += [["L", rng.choice([root, root, p1])], ["H", root], ["L", root]]
     elif which == 6:    # collect / mutate / collect
         ops += [["S", p1, x, c], ["S", p2, x, c], ["S", root, a, p1], ["S", root, b, p2], ["L", root], ["L", root],
                 ["S", c, z, y], ["L", root], ["R", p1], ["L", root]]
@@ -303,8 +324,8 @@ def rand_key(rng, world, sh, p):
 
 def rand_op(rng, world, sh, w):
     n = len(sh.kind)
-    t = rng.choices(["N", "S", "D", "U", "G", "C", "H", "F", "E", "M", "L", "R", "W"],
-                    weights=[w.get(k, 0) for k in ["N", "S", "D", "U", "G", "C", "H", "F", "E", "M", "L", "R", "W"]])[0]
+    kinds = ["N", "S", "D", "U", "G", "C", "H", "F", "E", "M", "L", "R", "W", "I"]
+    t = rng.choices(kinds, weights=[w.get(k, 0) for k in kinds])[0]
     if n == 0 or t == "N":
         if world == "generic":
             return ["N", rng.choice("nnnl"), H(rng.choice([b"x", b"x", b"x", b"y", b"z", b"z"]))]
@@ -346,10 +367,53 @@ def rand_op(rng, world, sh, w):
     return [t, anyn]
 
 
-WEIGHTS_C10 = {"N": 3, "S": 8, "D": 4, "U": 2, "G": 1, "C": 1, "H": 6, "F": 2.5, "E": 1, "M": 1, "L": 1.5, "R": 0.5, "W": 1.5}
+WEIGHTS_C10 = {"N": 3, "S": 8, "D": 4, "U": 2, "G": 1, "C": 1, "H": 5, "F": 2.5, "E": 1, "M": 1, "L": 1.5, "R": 0.5, "W": 1.5,
+               "I": 2.5}
 
 
-def gen_case(rng, world, nops, weights, nscen=12, readall=None):
+def first_read(rng, world, sh, changed):
+    """a derived read issued right after a mutation: which value (hash, swhid, entries, model object, collection) and
+    where (the mutated node, one of its ancestors, a root above it) vary, so that no read can hide the staleness
+    of another one by recomputing the hash first"""
+    above = [a for a in range(len(sh.kind)) if changed in sh.reach(a)]
+    roots = [a for a in above if sh.nparents(a) == 0] or above
+    n = rng.choice([changed, rng.choice(above), rng.choice(roots)])
+    if world == "disk":
+        t = rng.choice(["I", "I", "H", "L"] + (["E", "M"] if sh.kind[n] == "d" else []))
+    else:
+        t = rng.choice(["H", "H", "L", "I"])
+    return [t, n]
+
+
+def failing_op(rng, world, sh):
+    """an operation that raises (and must therefore change nothing)"""
+    n = len(sh.kind)
+    inner = [i for i in range(n) if sh.kind[i] in "nd"]
+    leaves = [i for i in range(n) if sh.kind[i] in "lc"]
+    for _ in range(8):
+        r = rng.random()
+        p = rng.choice(inner) if inner else 0
+        if r < 0.35:
+            op = ["D", p, H(rng.choice([b"zz", b"a/zz", b"zz/a", b"a/b/zz", b""]))]
+            ok = sh.del_target(op[1], bytes.fromhex(op[2])) is None
+        elif r < 0.5 and leaves:
+            op = rng.choice([["D", rng.choice(leaves), H(b"a")], ["S", rng.choice(leaves), H(b"a"), rng.randrange(n)],
+                             ["U", rng.choice(leaves), [[H(b"a"), rng.randrange(n)]]]])
+            ok = True
+        elif r < 0.8:
+            ks = list(sh.kids[p].keys())
+            k = (rng.choice(ks) + b"/" if ks else b"") + rng.choice([b"zz/a", b"zz/b/c"])
+            op = ["S", p, H(k if world == "disk" else b""), rng.randrange(n)] if world == "disk" else ["G", p, H(b"zz")]
+            ok = op[0] == "G" or sh.set_target(op[1], bytes.fromhex(op[2]), op[3]) is None
+        else:
+            op = [rng.choice(["G", "C"]), p, H(rng.choice([b"zz", b"a/zz"]))]
+            ok = op[0] == "C" or sh.getitem(op[1], bytes.fromhex(op[2])) is None
+        if ok and sh.safe(op):
+            return op
+    return None
+
+
+def gen_case(rng, world, nops, weights, nscen=14, readall=None):
     sh = Shadow()
     ops = []
     if rng.random() < 0.6:
@@ -367,25 +431,42 @@ def gen_case(rng, world, nops, weights, nscen=12, readall=None):
         tries += 1
         op = rand_op(rng, world, sh, w)
         if sh.safe(op):
-            sh.apply(op)
+            changed = sh.apply(op)
             ops.append(op)
+            if op[0] == "W":
+                changed = op[1]
+            if changed is not None and rng.random() < 0.5:
+                ops.append(first_read(rng, world, sh, changed))
+            if op[0] == "L" and rng.random() < 0.3:
+                for _ in range(rng.choice([1, 1, 2])):
+                    f = failing_op(rng, world, sh)
+                    if f:
+                        sh.apply(f)          # a no-op on the shadow: the operation fails
+                        ops.append(f)
+                ops.append(["L", op[1]])
     if readall is None:
-        readall = rng.random() < 0.35
+        readall = rng.random() < 0.18
     if readall:
         full, cnt = [], 0
+        first = rng.choice(["H", "H", "I", "I", "M", "E"]) if world == "disk" else "H"
+        kinds = []
         for op in ops:
             full.append(op)
             if op[0] == "N":
                 cnt += 1
+                kinds.append(op[1])
             if op[0] != "H":
-                full += [["H", i] for i in range(cnt)]
+                for i in range(cnt):
+                    if first == "I" or (first in "ME" and kinds[i] == "d"):
+                        full.append([first, i])
+                    full.append(["H", i])
         ops = full
     else:
         ops += [["H", i] for i in range(len(sh.kind))]
     return {"world": world, "ops": ops, "by_id": 1}
 
 
-def gen(rng, tier, weights=WEIGHTS_C10, nscen=12):
+def gen(rng, tier, weights=WEIGHTS_C10, nscen=14):
     n_cases = 1200 if tier == "quick" else 30000
     cases = []
     for k in range(n_cases):
@@ -400,11 +481,21 @@ def replay_shadow(c):
     read = set()
     hit = False
     info = {"shared": False, "equal_parents": False, "replace": False, "nested": False, "force": False, "errors": False,
-            "write": False, "write-then-force-above": False}
+            "write": False, "write-then-force-above": False, "swhid-first-after-mutation": False,
+            "failing-op-after-collect": False}
+    last_mut = prev = None
     for op in c["ops"]:
         t = op[0]
         if t == "W":
             info["write"] = True
+        if t == "I" and last_mut:
+            info["swhid-first-after-mutation"] = True
+        if prev == "L" and t in "SDUGC" and op[1] < len(sh.kind) and (
+                (t == "S" and op[3] < len(sh.kind) and sh.set_target(op[1], bytes.fromhex(op[2]), op[3]) is None)
+                or (t == "D" and sh.del_target(op[1], bytes.fromhex(op[2])) is None)
+                or (t == "U" and sh.kind[op[1]] in "lc")):
+            info["failing-op-after-collect"] = True
+        prev = t
         if t == "F" and op[1] < len(sh.kind) and sh.written & sh.reach(op[1]):
             info["write-then-force-above"] = True
         if t in ("H", "F", "L", "E", "M") and op[1] < len(sh.kind):
@@ -418,6 +509,10 @@ def replay_shadow(c):
             if r and b"/" in bytes.fromhex(op[2]) and sh.kind[op[1]] == "d":
                 info["nested"] = True
         changed = sh.apply(op)
+        if t in ("H", "I", "E", "M", "L", "F"):
+            last_mut = False
+        if changed is not None or t == "W":
+            last_mut = True
         if changed is not None:
             for n in read:
                 if changed in sh.reach(n) and (sh.nparents(n) >= 2 or sh.height(n) >= 2 or sh.nparents(changed) >= 2):
@@ -598,6 +693,7 @@ def impl(c):
     for idx, op in enumerate(c["ops"]):
         t = op[0]
         _MEMO.clear()
+        flags = [nd.collected for nd in nodes]      # `collected` is a public attribute of MerkleNode
         try:
             if t == "N":
                 nd = mk_node(op[1], bytes.fromhex(op[2]))
@@ -637,6 +733,21 @@ def impl(c):
                     bad.append("op %d %s: node %d reports hash %s but its current structure hashes to %s"
                                % (idx, op, op[1], hexs(h), hexs(want)))
                 tok = "x" + hexs(h if generic else scratch_m(nd))
+            elif t == "I":
+                nd = nodes[op[1]]
+                sw = nd.swhid()                      # AttributeError for the generic classes
+                from swh.model.swhids import ObjectType
+                want_t = ObjectType.DIRECTORY if isinstance(nd, from_disk.Directory) else ObjectType.CONTENT
+                want = scratch_real(nd)
+                if id(nd) in dirty:
+                    loose.append(idx)
+                else:
+                    if sw.object_id != want:
+                        bad.append("op %d %s: swhid() of node %d carries id %s but its current structure hashes to %s"
+                                   % (idx, op, op[1], hexs(sw.object_id), hexs(want)))
+                    if sw.object_type != want_t:
+                        bad.append("op %d %s: swhid() of node %d has object type %s" % (idx, op, op[1], sw.object_type))
+                tok = "x" + hexs(scratch_m(nd))
             elif t in ("E", "M"):
                 nd = nodes[op[1]]
                 excused = id(nd) in dirty
@@ -697,8 +808,17 @@ def impl(c):
                 tok = "?"
         except Exception as e:   # noqa
             tok = err_tok(e)
-        if t in MUT or t == "F":
+        failed = tok.startswith("!")
+        if (t in MUT and not failed) or t == "F":
             quiet = {}
+        if failed:
+            # an operation that raises is not a change: in particular it must not clear a collected flag (the next
+            # collect would report the node again although nothing changed), which `quiet` - kept - checks as well
+            for i, (was, nd) in enumerate(zip(flags, nodes)):
+                if was and not nd.collected:
+                    bad.append("op %d %s failed (%s) and yet cleared the collected flag of node %d: collecting again "
+                               "without an intervening change would report it" % (idx, op, tok, i))
+                    break
         outs.append(tok)
         dirty = up_closure(nodes, dirty)
         # the property, without touching any cache: a set private hash must be the from-scratch hash
